@@ -871,6 +871,19 @@ theorem obj_forward_points_eq_integral (py px : RegAxis) (n : ℕ) (X Y w : ℕ 
   rw [this]
   exact lens_naive_forward_eq_integral _ py px X Y lam (f lam) (E t) k
 
+/-- **`backward` of the object from a point-list focal grid** is the adjoint Fourier integral over the focal points with
+their weights, for every tensor component (`λ f ≠ 0`). -/
+theorem obj_backward_points_eq_adjoint_integral (py px : RegAxis) (n : ℕ) (X Y w : ℕ → ℝ) (f : ℝ → ℝ) (plan : ℝ → Plan)
+    (emu : Bool) (G : σ → ℕ → ℕ → ℂ) (lam : ℝ) (S : Option (ℝ × ℝ × ℝ × ℝ)) (hne : lam * f lam ≠ 0) (t : σ)
+    (j : Fin py.n × Fin px.n) :
+    ((ptsObj py px n X Y w f plan emu).backward scalarsR ⟨G, lam, S⟩).field t j.1 j.2
+      = I / ((lam : ℂ) * (f lam : ℂ))
+        * ∑ k ∈ Finset.range n, G t 0 k * (w k : ℂ)
+            * cexp (2 * (Real.pi : ℂ) * I * ((dot ![X k, Y k] ![px.x j.2, py.x j.1] : ℝ) : ℂ)
+                / ((lam : ℂ) * (f lam : ℂ))) := by
+  rw [ptsObj_backward_field, clip2_apply]
+  exact lens_naive_backward_eq_adjoint_integral _ py px n X Y w lam (f lam) hne (G t 0) j
+
 /-! ### object identity: what a call history creates -/
 
 /-- **Results are new objects, for every call history** (unbounded; fresh wavefronts with or without Stokes vector,
